@@ -11,15 +11,16 @@
 (* sequential (concurrent deletes/writes are the subject of BucketDelete.tla).                                *)
 (*                                                                                                            *)
 (* Contract layer: the invariants / action properties at the end (ShardIdUnique, SeriesFileCovers,            *)
-(* SeriesFileExact, DeleteShardContract, DeleteDatabaseContract, DeleteRPContract, ReopenPreserves,           *)
-(* FailedCallsChangeNothing).                                                                                 *)
+(* SeriesFileExact, IdsInjective, LayoutConsistent, DeleteShardContract, DeleteDatabaseContract,             *)
+(* DeleteRPContract, ReopenPreserves, FailedCallsChangeNothing, WriteRefusal).                                *)
 (*                                                                                                            *)
 (* Deliberate, named deviations of the model from the ideal contract (the model follows the code):           *)
 (*  Q1  DeleteRetentionPolicy never touches the series file: series held only by the removed shards keep     *)
 (*      their ids (ghost variable `leaked` records them; they are re-used when the series is written again). *)
 (*  Q2  DeleteDatabase / DeleteRetentionPolicy consult Store.databases, not the disk: for a database whose   *)
 (*      directory exists but that has no registered shard since the last Open they do nothing and return nil *)
-(*      (StrongDeleteDatabase below states the ideal; Lead_Q2.cfg shows the model-level counterexample).     *)
+(*      (StrongDeleteDatabase below states the ideal; Lead_Q2.cfg shows the model-level counterexample, which *)
+(*      reproduces on the real store: known finding FX1).                                                     *)
 (*  Q3  CreateShard with an id that is already registered (in any database) is a silent no-op.                *)
 EXTENDS Integers, Sequences, FiniteSets, TLC
 
